@@ -56,6 +56,7 @@ type simRun struct {
 	lHP     []int
 	lPh1    []int
 	lPh2    []int
+	lAtk    []int
 	budget  int
 	rev     map[key.TargetID]bool
 	trace   []term.T
@@ -168,6 +169,15 @@ func (r *simRun) subscribe(eng engine.Engine) {
 		}
 		if i, ok := r.popSlot(&r.lBattle); ok {
 			r.execOps(r.script(i), 0, 0)
+		}
+	})
+	ev.AttackStart.Subscribe(func(e event.AttackStart) {
+		if i, ok := r.popSlot(&r.lAtk); ok {
+			self := e.Attacker
+			if len(e.Targets) > 0 {
+				self = e.Targets[0]
+			}
+			r.execOps(r.script(i), self, e.Attacker)
 		}
 	})
 	ev.ActionEnd.Subscribe(func(e event.ActionEnd) {
@@ -500,10 +510,10 @@ func intList(t term.T) []int {
 
 func runSim(in term.T) term.T {
 	simOnce.Do(registerSimContent)
-	_, a := term.Ctor(in) // mkCfg units scripts next ults lb la lh ld lhp lph1 lph2 limit budget
+	_, a := term.Ctor(in) // mkCfg units scripts next ults lb la lh ld lhp lph1 lph2 latk limit budget
 	r := &simRun{acts: map[key.TargetID][]int{}, next: map[key.TargetID][]term.T{}, rev: map[key.TargetID]bool{}}
 	curSim = r
-	cfg := &model.SimConfig{Settings: &model.SimulatorSettings{CycleLimit: uint32(term.Int(a[11]))}}
+	cfg := &model.SimConfig{Settings: &model.SimulatorSettings{CycleLimit: uint32(term.Int(a[12]))}}
 	allWeak := []model.DamageType{}
 	for i := 1; i < len(model.DamageType_name); i++ {
 		allWeak = append(allWeak, model.DamageType(i))
@@ -546,8 +556,8 @@ func runSim(in term.T) term.T {
 		r.ults = append(r.ults, term.List(u))
 	}
 	r.lBattle, r.lAction, r.lHit, r.lDeath, r.lHP = intList(a[4]), intList(a[5]), intList(a[6]), intList(a[7]), intList(a[8])
-	r.lPh1, r.lPh2 = intList(a[9]), intList(a[10])
-	r.budget = int(term.Int(a[12]))
+	r.lPh1, r.lPh2, r.lAtk = intList(a[9]), intList(a[10]), intList(a[11])
+	r.budget = int(term.Int(a[13]))
 
 	r.sim = simulation.NewSimulation(cfg, &vEval{r: r}, 7)
 	logging.InitLoggers(&simLogger{r: r})
